@@ -344,3 +344,58 @@ Proof. unfold ok_chi2_uniform. cbv zeta. rewrite andb_true_iff, orb_true_iff, Z.
 
 Lemma normalized_fixed_uniform lo hi k : (lo < hi)%Z -> (0 <= k <= hi - lo)%Z -> q_int_normalized_fixed lo hi k = q_int_uniform lo hi k.
 Proof. intros H1 H2. rewrite (normalized_fixed_id lo hi k H1 H2). unfold q_int_uniform. symmetry. apply clipZ_id. lia. Qed.
+
+(* ------------------------------------------------------------ points of the ConfigSpace path ------------------------------------------------------------ *)
+Open Scope Z_scope.
+Lemma cs_point_length names specs conf : length (cs_point names specs conf) = length names.
+Proof. unfold cs_point. apply map_length. Qed.
+
+(* an ACTIVE value is handed out unchanged, whatever it is *)
+Lemma cs_point_active names specs conf i n v :
+  nth_error names i = Some n -> lookup_atom n conf = Some v -> nth_error (cs_point names specs conf) i = Some (Some v).
+Proof. intros Hn Hv. unfold cs_point. rewrite nth_error_map, Hn. cbn [option_map]. unfold cs_value. rewrite Hv. reflexivity. Qed.
+
+(* an inactive hyperparameter carries the lower bound / the first category, which is a member of the declared support *)
+Lemma cs_point_inactive names specs conf i n s :
+  nth_error names i = Some n -> lookup_atom n conf = None -> specs n = Some s ->
+  nth_error (cs_point names specs conf) i = Some (inactive_value s).
+Proof. intros Hn Hv Hs. unfold cs_point. rewrite nth_error_map, Hn. cbn [option_map]. unfold cs_value. rewrite Hv, Hs. reflexivity. Qed.
+
+Lemma py_eq_refl_valid a : a <> ANone \/ a = ANone -> py_eq a a = true.
+Proof.
+  intros _. destruct a as [z|q|t|b|]; cbn [py_eq is_num is_int is_float qval ival orb andb]; try apply Z.eqb_refl; try reflexivity;
+    apply Qeq_bool_iff; reflexivity.
+Qed.
+
+Lemma inactive_value_in_support s a : spec_valid s = true -> inactive_value s = Some a -> in_support s a = true.
+Proof.
+  destruct s as [lo hi g|lo hi g|c]; cbn [spec_valid inactive_value in_support]; intros Hv E.
+  - inversion E; subst. apply andb_true_iff in Hv as [Hv _]. apply Z.ltb_lt in Hv. apply andb_true_iff. split; apply Z.leb_le; lia.
+  - inversion E; subst. apply andb_true_iff in Hv as [Hv _]. unfold Qltb in Hv. apply negb_true_iff in Hv.
+    apply andb_true_iff. split; apply Qle_bool_iff; [apply Qle_refl|].
+    destruct (Qlt_le_dec lo hi) as [H|H]; [apply Qlt_le_weak; exact H|]. apply Qle_bool_iff in H. congruence.
+  - destruct c as [|x t]; [discriminate|]. inversion E; subst. cbn [existsb]. rewrite py_eq_refl_valid; [reflexivity | destruct a; auto; left; discriminate].
+Qed.
+
+(* names zipped with the point give every name ITS value - provided the names are the container order the point was built in *)
+Lemma to_dict_aligned names specs conf n : In n names ->
+  lookup_opt n (to_dict names (cs_point names specs conf)) = Some (cs_value specs conf n).
+Proof.
+  unfold to_dict, cs_point. induction names as [|k t IH]; intros Hin; [destruct Hin|]. cbn [map combine lookup_opt].
+  destruct (n =? k) eqn:E; [apply Z.eqb_eq in E; subst; reflexivity|].
+  destruct Hin as [->|Hin]; [rewrite Z.eqb_refl in E; discriminate | apply IH; exact Hin].
+Qed.
+
+(* with a STALE list of names (two different names exchanged) the values are exchanged too: the alignment is not robust *)
+Lemma to_dict_stale specs conf a b : a <> b ->
+  lookup_opt a (to_dict [b; a] (cs_point [a; b] specs conf)) = Some (cs_value specs conf b).
+Proof. intros H. cbn. destruct (a =? b) eqn:E; [apply Z.eqb_eq in E; contradiction|]. rewrite Z.eqb_refl. reflexivity. Qed.
+
+(* many calls on one object: judging the union of the draws is judging every call *)
+Lemma support_chunks s (chunks : list (list atom)) :
+  (forall a, In a (concat chunks) -> in_support s a = true) <-> (forall c, In c chunks -> forall a, In a c -> in_support s a = true).
+Proof.
+  split.
+  - intros H c Hc a Ha. apply H. apply in_concat. exists c. auto.
+  - intros H a Ha. apply in_concat in Ha as (c & Hc & Hac). eapply H; eauto.
+Qed.
